@@ -17,6 +17,7 @@ package splitcarfetcher
 import (
 	"bytes"
 	"context"
+	"errors"
 	"fmt"
 	"math"
 	"math/rand"
@@ -260,6 +261,11 @@ func c17JudgeRead(f []byte, off int64, p []byte, n int, err error, pan any, reqs
 		}
 	}
 	if err != nil {
+		var op *net.OpError
+		if errors.As(err, &op) && op.Op == "dial" {
+			// the request never left this machine (no socket / no port): says nothing about the code under test
+			return &c17V{"", "local dial failure, read not judged: " + err.Error()}
+		}
 		if fault == "" && off < size {
 			return &c17V{c17Site + "/error-without-remote-failure", fmt.Sprintf("ReadAt(len %d, off %d) returned error %q although the remote answered every request of this call correctly (%d requests)", ln, off, err.Error(), len(reqs))}
 		}
@@ -307,7 +313,12 @@ func c17RunScenario(sc *c17Scenario) ([]*c17V, string) {
 	}
 	var out []*c17V
 	seen := map[string]bool{}
+	inconclusive := ""
 	add := func(v *c17V, phase string, step int) {
+		if v.key == "" {
+			inconclusive = v.detail
+			return
+		}
 		if seen[v.key] {
 			return
 		}
@@ -379,7 +390,7 @@ func c17RunScenario(sc *c17Scenario) ([]*c17V, string) {
 			add(v, "re-read after recovery", i)
 		}
 	}
-	return out, ""
+	return out, inconclusive
 }
 
 func c17ScenarioSig(sc *c17Scenario) string {
@@ -680,7 +691,9 @@ func TestVerifC17HTTPConcurrent(t *testing.T) {
 					l0 := srv.logLen()
 					n, err, pan := c17SafeReadAt(rd, p, off)
 					reqs := srv.since(l0)
-					if v := c17JudgeRead(f, off, p, n, err, pan, reqs, ""); v != nil {
+					if v := c17JudgeRead(f, off, p, n, err, pan, reqs, ""); v != nil && v.key == "" {
+						rec.Inconclusive(v.detail)
+					} else if v != nil {
 						rec.Violation(c17ConcKey(v.key, "(concurrent)"), v.detail, map[string]any{"kind": "http-concurrent", "seed": ev.Seed(), "round": round, "off": off, "len": ln})
 					}
 					mu.Lock()
@@ -719,7 +732,9 @@ func TestVerifC17HTTPConcurrent(t *testing.T) {
 			p := make([]byte, h[1])
 			l0 := srv.logLen()
 			n, err, pan := c17SafeReadAt(rd, p, h[0])
-			if v := c17JudgeRead(f, h[0], p, n, err, pan, srv.since(l0), ""); v != nil {
+			if v := c17JudgeRead(f, h[0], p, n, err, pan, srv.since(l0), ""); v != nil && v.key == "" {
+				rec.Inconclusive(v.detail)
+			} else if v != nil {
 				rec.Violation(c17ConcKey(v.key, "(readback)"), v.detail, map[string]any{"kind": "http-concurrent", "seed": ev.Seed(), "round": round, "off": h[0], "len": h[1]})
 			}
 		}
